@@ -97,6 +97,13 @@ def explore(ctx, shards, increments, reserve=20):
             complete = False
             break
         errs = [r for r in res if r is None or "error" in r]
+        killed = [r for r in errs if r and "error" in r and ("harness exit -6" in r["error"] or "harness exit -9" in r["error"]) and r["error"].rstrip().endswith("output ''")]
+        if errs and len(killed) == len(errs) and any(b is not None for b in best):
+            # a shard of a *deepening* stage died without a word (memory exhausted with 16 state tables in parallel): the stage is
+            # dropped like one cut by the deadline; what the earlier stages covered stands
+            common.log("lmmx: stage '%s' ran out of resources (%s), discarded" % (label, killed[0]["error"][:60]))
+            complete = False
+            break
         if errs:
             common.log("lmmx: harness error: %s" % errs[0])
             raise SystemExit(2)
